@@ -231,6 +231,8 @@ def run(check, repo: Repo) -> None:
                 fail_detail=f"`{e.text}` writes to the target; if it (or a later step) raises, the exception "
                             f"leaves save() without the target being removed, renamed atomically or protected "
                             f"by a completeness marker: a partial but loadable object stays on disk")
+    # ---- R5 overrides delegate --------------------------------------------------------------
+    _rule_overrides(check, repo)
     # ---- R4 staging precedes publication ---------------------------------------------------
     n_pairs = 0
     for label, a in [("save", ea)] + helper_eas:
@@ -263,6 +265,37 @@ def run(check, repo: Repo) -> None:
 
 TARGET_KIND = {"ZipFile": "file", "open": "file", "makedirs": "directory", "mkdir": "directory", "LocalStore": "directory", "copytree": "directory"}
 REMOVER_KIND = {"remove": "file", "unlink": "file", "rmtree": "directory", "rmdir": "directory", "removedirs": "directory"}
+def _rule_overrides(check, repo: Repo) -> None:
+    """R5: a subclass that overrides save() delegates every effect on the target to AutoSerialize.save: the override itself never
+    removes, renames or creates the target path (an `except: remove(path)` around super().save() deletes the existing complete
+    object exactly when the base class refuses to overwrite it)."""
+    bmod, bcls = repo.cls(f"{SER}:AutoSerialize")
+    n = 0
+    for m, c in repo.subclasses(bmod, bcls):
+        for f in c.body:
+            if not (isinstance(f, ast.FunctionDef) and f.name == "save"):
+                continue
+            ps = func_params(f)
+            if len(ps) < 2:
+                continue
+            n += 1
+            check.analysed(f"{m.name}:{c.name}.save")
+            a = EffectAnalysis(f, {ps[1]}, m)
+            bad = [e for e in a.effects if e.kind in ("remove", "creator", "atomic") and "T" in e.path_tags]
+            # pathlib spellings on the target: Path(path).unlink() / .rmdir() / .rename() / .replace()
+            for x in ast.walk(f):
+                if isinstance(x, ast.Call) and isinstance(x.func, ast.Attribute) and x.func.attr in ("unlink", "rmdir", "rename", "replace", "mkdir", "touch", "write_bytes", "write_text") \
+                        and ps[1] in names_in(x.func.value) and not any(e.node in a.cfg.node_containing(x) for e in bad):
+                    bad.append(type("E", (), {"text": unparse(x)[:60], "node": (a.cfg.node_containing(x) or [a.cfg.entry])[0]})())
+            delegates = any(isinstance(x, ast.Call) and isinstance(x.func, ast.Attribute) and x.func.attr == "save" and isinstance(x.func.value, ast.Call)
+                            and call_name(x.func.value) == "super" for x in ast.walk(f))
+            check.decide(not bad and delegates, "C08-R5", f"{c.name}.save delegates all effects on the target to AutoSerialize.save", "", m.line(f),
+                         fail_detail=(f"`{bad[0].text}` acts on the target path inside the override" if bad else "the override does not call super().save()") +
+                                     ": write-once protection and failure cleanup are decided by the base class alone — a caller-side cleanup also fires when the base class raised "
+                                     "FileExistsError and deletes the existing, complete object")
+    check.floor("save() overrides of AutoSerialize subclasses", n, 1)
+
+
 NORAISE = {"os.path.exists", "os.path.lexists", "os.path.isdir", "os.path.isfile"}  # return False on error
 
 
